@@ -9,6 +9,8 @@ package jsontext
 import (
 	"bytes"
 	"io"
+
+	"github.com/go-json-experiment/json/internal/jsonopts"
 )
 
 // Contracts for encode.go: flushing.
@@ -224,3 +226,70 @@ func blankString(s string) bool {
 
 //@ func (export).IsIOError
 //@ inline
+
+// ---------------------------------------------------------------- reset and pools (history independence)
+
+//@ extern sync.(*Pool).Get() (result any)
+//@ trusted sync.Pool: returns some previously Put value or a new one; no effect on the heap the contracts speak about
+
+//@ extern sync.(*Pool).Put(x any)
+//@ trusted sync.Pool: retains x; no effect on the heap the contracts speak about
+
+//@ spec isStructOpt
+func isStructOpt(o Options) bool {
+	_, ok := o.(*jsonopts.Struct)
+	return ok
+}
+
+//@ spec asStructOpt
+func asStructOpt(o Options) *jsonopts.Struct {
+	s, _ := o.(*jsonopts.Struct)
+	return s
+}
+
+// encoderState.reset: whatever the encoder held before, afterwards the coder
+// state is the initial one, the buffer is the one passed in (or the empty spare
+// capacity of the bytes.Buffer), the offset is zero and the writer is w. Only
+// availBuffer and bufStats survive (never part of the output).
+//
+//@ func (*encoderState).reset
+//@ property C18 C07 C20
+//@ requires e != nil && vForall(0, len(opts), func(i int) bool { return isStructOpt(opts[i]) ==> asStructOpt(opts[i]) != nil })
+//@ modifies e.state.Tokens.Stack, e.state.Tokens.Last, e.state.Names.offsets, e.state.Names.unquotedNames, e.state.Namespaces, e.encodeBuffer.Buf, e.encodeBuffer.baseOffset, e.encodeBuffer.wr, e.encodeBuffer.maxValue, e.encodeBuffer.availBuffer, e.encodeBuffer.bufStats, e.Struct
+//@ ensures tokens: len(e.Tokens.Stack) == 0 && e.Tokens.Last == stateTypeArray
+//@ ensures names: len(e.Names.offsets) == 0 && len(e.Names.unquotedNames) == 0 && len(e.Namespaces) == 0
+//@ ensures buffer: e.baseOffset == 0 && e.wr == w && e.maxValue == 0 && (!isBytesBufferW(w) ==> sameSlice(e.Buf, b)) && (isBytesBufferW(w) ==> len(e.Buf) == 0 || sameSlice(e.Buf, b))
+//@ ensures survivors: sameSlice(e.availBuffer, old(e.availBuffer)) && e.bufStats == old(e.bufStats)
+
+//@ func (*decoderState).reset
+//@ property C18 C05 C20
+//@ requires d != nil && vForall(0, len(opts), func(i int) bool { return isStructOpt(opts[i]) ==> asStructOpt(opts[i]) != nil })
+//@ modifies d.state.Tokens.Stack, d.state.Tokens.Last, d.state.Names.offsets, d.state.Names.unquotedNames, d.state.Namespaces, d.decodeBuffer.peekPos, d.decodeBuffer.peekErr, d.decodeBuffer.buf, d.decodeBuffer.prevStart, d.decodeBuffer.prevEnd, d.decodeBuffer.baseOffset, d.decodeBuffer.rd, d.Struct
+//@ ensures tokens: len(d.Tokens.Stack) == 0 && d.Tokens.Last == stateTypeArray
+//@ ensures names: len(d.Names.offsets) == 0 && len(d.Names.unquotedNames) == 0 && len(d.Namespaces) == 0
+//@ ensures buffer: d.baseOffset == 0 && d.prevStart == 0 && d.prevEnd == 0 && d.peekPos == 0 && d.peekErr == nil && d.rd == r && sameSlice(d.buf, b)
+
+// putStreamingEncoder: the pooled encoder keeps neither the writer nor, when the
+// writer was a bytes.Buffer, the caller's buffer it was appending into.
+//
+//@ func putStreamingEncoder
+//@ property C18 C07 C20
+//@ requires e != nil
+//@ modifies e.s.encodeBuffer.wr, e.s.encodeBuffer.Buf, e.s.encodeBuffer.availBuffer
+//@ ensures wr-dropped: e.s.wr == nil
+//@ ensures no-alias: old(isBytesBufferW(e.s.wr)) ==> len(e.s.Buf) == 0 && cap(e.s.Buf) == 0
+//@ ensures bounded: cap(e.s.Buf) <= 64<<10 && cap(e.s.availBuffer) <= 64<<10
+
+//@ func putStreamingDecoder
+//@ property C18 C05 C20
+//@ requires d != nil
+//@ modifies d.s.decodeBuffer.rd, d.s.decodeBuffer.buf
+//@ ensures rd-dropped: d.s.rd == nil
+//@ ensures no-alias: old(isBytesBuffer(d.s.rd)) ==> len(d.s.buf) == 0 && cap(d.s.buf) == 0
+//@ ensures bounded: cap(d.s.buf) <= 64<<10
+
+//@ func putBufferedDecoder
+//@ property C18 C20
+//@ requires d != nil
+//@ modifies d.s.decodeBuffer.buf
+//@ ensures dropped: len(d.s.buf) == 0 && cap(d.s.buf) == 0
